@@ -124,6 +124,11 @@ func framePremises(fr *Frame, data ASlice, tcp bool, fc int64, isResponse bool) 
 }
 
 func checkC02(c *Ctx, r *Report) {
+	// R2.10: "re-encoding the result reproduces the frame" holds for the value the caller keeps: no
+	// method of a reply type or of the Registers view sharing its payload writes the payload (an
+	// accessor that swaps bytes in place and forgets to swap back on one exit) (C13 R13.1/R13.4)
+	r.instance("R2.10", packetValuesImmutable(c, r, "R2.10", "packet", responseFamily(c, "packet"), nil))
+	r.floor("R2.10", 60)
 	r.floor("R2.1", 20)
 	r.floor("R2.2", 10)
 	r.floor("R2.3", 5)
